@@ -106,7 +106,14 @@ func NondetBytes(label string, n int) []byte {
 	return out
 }
 
-func Choose(n int) int { return 0 }
+func Choose(n int) int {
+	v, ok := next("choose")
+	if !ok {
+		return 0
+	}
+	k, _ := strconv.Atoi(strings.TrimSpace(v))
+	return k
+}
 
 func Assume(b bool) {
 	if !b {
